@@ -2,6 +2,7 @@ package rules
 
 import (
 	"regexp"
+	"sort"
 	"strings"
 
 	"golang.org/x/tools/go/ssa"
@@ -88,6 +89,7 @@ func takesTransaction(f *ssa.Function) bool {
 var limitRe = regexp.MustCompile(`(?i)\bLIMIT\s+(\S+)`)
 
 func c07(c *Ctx) {
+	defer c07reads(c)
 	P, R := c.P, c.R
 	R.Explain("R07.1", "ordering: in every function that creates message rows (tx.CreateMessages / tx.CreateMessageAndAddToMailbox) each success return is also preceded by the write of the message literal to the store (Set/SetUnchecked, directly or inside a worker closure) — a listed message always has its bytes; the store write happens inside the transaction closure or before it, never after the commit wrapper returned.")
 	R.Explain("R07.2", "store deletions happen outside any transaction and only (a) after the write that deleted the rows succeeded, (b) after the write that created those ids failed, or (c) for the set difference against GetAllMessagesIDsAsMap.")
@@ -318,4 +320,32 @@ func c07(c *Ctx) {
 		return "", false
 	}, "the transaction would commit a row whose bytes were not stored")
 	R.Min("R07.5", "store writes of message bytes", k, 5)
+}
+
+// c07reads (R07.6): a failed read inside a write transaction aborts it.
+func c07reads(c *Ctx) {
+	R := c.R
+	R.Explain("R07.6", "T-NODROP for reads inside write transactions: in internal/state and internal/backend the error of every read made through a db.Transaction (Get*/…Exists*/… on the transaction of a write closure) is returned, except on the true edge of an explicit not-found classification (db.IsErrNotFound / errors.Is): a read that failed for any other reason must not be treated as 'nothing there' while the transaction goes on to commit the rest (a partly applied update that is acknowledged as done).")
+	// accepted idioms, confirmed by reading (one reason each)
+	except := map[string]string{
+		"internal/state.(*State).Unsubscribe$1|GetMailboxByName":                   "any failure to find the mailbox falls back to the deleted-subscription table; that lookup's own error is returned, nothing is written on this path",
+		"internal/backend.(*user).applyMessagesCreated$1|GetMailboxIDFromRemoteID": "skipped only under update.IgnoreUnknownMailboxIDs, the documented option of MessagesCreated for mailboxes the connector has not announced yet",
+	}
+	var rows []string
+	for k, v := range except {
+		rows = append(rows, k+": "+v)
+	}
+	sort.Strings(rows)
+	R.Table("R07.6 accepted swallowed reads", rows...)
+	k := c.errorsPropagated("R07.6", []string{"internal/state", "internal/backend"}, func(cs engine.CallSite) (string, bool) {
+		cc := cs.Common()
+		if cc.IsInvoke() && engine.IsNamed(cc.Value.Type(), "db", "Transaction") && !isWriteMethod(cc.Method.Name()) {
+			if _, ok := except[c.name(cs.Fn)+"|"+cc.Method.Name()]; ok {
+				return "", false
+			}
+			return "tx." + cc.Method.Name(), true
+		}
+		return "", false
+	}, "the transaction continues as if the row did not exist and commits a partial effect")
+	R.Min("R07.6", "reads through a write transaction", k, 40)
 }
